@@ -29,7 +29,8 @@ RULE = ("job = seed -> scenario with version *ranges* on both sides (so that "
         "capable server is refused with inappropriate_fallback.  distinct = "
         "digest(scenario, attack); non-trivial = the attack altered traffic "
         "that at least one endpoint processed"
-        ' Also: ticket-issuing servers with flips aimed at the clear-text RFC 5077 NewSessionTicket (client must hold exactly what the server issued), and the TLS 1.1 sentinel of servers capped at TLS 1.2.')
+        ' Also: ticket-issuing servers with flips aimed at the clear-text RFC 5077 NewSessionTicket (client must hold exactly what the server issued), and the TLS 1.1 sentinel of servers capped at TLS 1.2.'
+        ' Injected warnings include half an alert (one byte); after both completed the sender of the attacked direction closes and its peer must read a plain end of stream; the sentinel must be ABSENT when the server negotiated its own maximum.')
 LEVEL_TEXT = ("Seeded fault search over the plaintext part of every flight "
               "(all byte positions are reachable; quick samples them, "
               "thorough covers them densely) and over structured downgrade "
